@@ -268,11 +268,23 @@ func getWorkCacheKey(src interface{}, field *Field, selection *Selection) resolv
 	key := resolveAndExecuteCacheKey{field: field, source: src, selection: selection}
 	// some types can't be put in a map; for those, use a always different value
 	// as source
-	if value.IsValid() && !value.Type().Comparable() {
+	if value.IsValid() && (!value.Type().Comparable() || !usableAsMapKey(src)) {
 		// TODO: Warn, or somehow prevent using type-system?
 		key.source = new(byte)
 	}
 	return key
+}
+
+// usableAsMapKey reports whether a value of a comparable type can be found
+// again in a map: not if it holds a NaN (never equal to itself) or an
+// interface whose dynamic value is not comparable (hashing it panics).
+func usableAsMapKey(v interface{}) (ok bool) {
+	defer func() {
+		if recover() != nil {
+			ok = false
+		}
+	}()
+	return v == v
 }
 
 // executeNonBatchWorkUnit resolves a non-batch field in our graphql response graph.
